@@ -2,6 +2,7 @@ import Hive.Proofs.DaemonRun
 import Hive.Proofs.DaemonProgress
 import Hive.Proofs.DaemonReg
 import Hive.Proofs.DaemonX
+import Hive.Proofs.DaemonTerm
 import Hive.Model.DaemonExec
 import Hive.Gen.C20_Skel
 import Hive.Gen.C20_Wrap
@@ -126,6 +127,20 @@ theorem C20_shutdown_not_stuck (ts ts' : List Th) (s : St) (hr : Reach (sys true
       | exact absurd rfl hnd
       | exact h (List.map_eq_nil_iff.mp this)
   · exact he (hstuck _ (hpool i hi))
+
+/-- **ShutdownAndWait returns once all workers returned (termination measure).**  In every reachable state with the
+stopped flag set in which no handler is running any more (`NoRun`), whatever thread of whatever pool takes a step: the
+flag stays set, no handler runs afterwards (nothing can be started any more), `termM` — the remaining program points of
+the `stopOnce` body plus the remaining steps (`Done`, clean-up, flag) of the worker goroutines — does not increase, and
+it strictly decreases when the step is one of the body (before it is done) or of a worker goroutine.  With
+`C20_shutdown_not_stuck` (one of these can always move until the body is done) the body is done after at most
+`termM s` such steps; the blocked callers of `stopOnce` then return (`step … (.sd c .blocked)` is enabled when
+`sd = done`). -/
+theorem C20_shutdown_terminates (ts ts' : List Th) (s : St) (hr : Reach (sys true true) (init, ts) (s, ts'))
+    (hst : s.stopped = true) (hnr : NoRun s) (t t' : Th) (s' : St) (hs : (s', t') ∈ step true true s t) :
+    s'.stopped = true ∧ NoRun s' ∧ termM s' ≤ termM s ∧
+      (((∃ i, t = .wk i) ∨ ((∃ c, t = .sd c .body) ∧ s.sd ≠ .done)) → termM s' < termM s) :=
+  step_term (inv_reach hr).1 hst hnr hs
 
 /-! ## The registry of a running daemon and `GetRunningBackgroundWorkers` -/
 
@@ -408,6 +423,15 @@ example :
 
 example : Reach (sys true true) (init, demoPool) (runSched (sys true true) (init, demoPool) demoSchedule) :=
   runSched_reach _ _ _
+
+/-- The hypotheses of `C20_shutdown_terminates` are satisfiable and the measure is not trivial: after 28 steps of `demoSchedule` every handler has
+returned, the body waits in `waitLast (-2)`, the measure is 10; four steps later the body is done. -/
+example :
+    let s := (runSched (sys true true) (init, demoPool) (demoSchedule.take 28)).1
+    let s' := (runSched (sys true true) (init, demoPool) (demoSchedule.take 32)).1
+    s.stopped = true ∧ s.n = 3 ∧ (s.objs 0).pc = .dn ∧ (s.objs 1).pc = .dn ∧ (s.objs 2).pc = .ret ∧
+      s.sd = .waitLast (-2) ∧ termM s = 10 ∧ s'.sd = .done ∧ termM s' = 6 := by
+  decide +kernel
 
 /-- The hypotheses of the progress theorems are satisfiable: after the first 18 steps of `demoSchedule` the shutdown
 is blocked in `waitMid 5` (both order-5 workers cancelled, none has returned), worker 0 is counted and enabled. -/
